@@ -98,12 +98,15 @@ def check(case, ctx):
     # ---- before ------------------------------------------------------------------------------------------------------------
     before = [G.snapshot(e) for e in elems]
     read_before = rng.random() < 0.5
+    input_views = None
     if read_before:
         if case['container']:
-            obj.evalpts
+            input_views = {'evalpts': [list(p) for p in obj.evalpts]}
         else:
             obj.sample_size = {1: 6, 2: 4, 3: 3}[pdim]
-            obj.evalpts
+            input_views = {'evalpts': [list(p) for p in obj.evalpts], 'ctrlpts': [list(p) for p in obj.ctrlpts]}
+            if obj.rational:
+                input_views['weights'] = list(obj.weights)
         if case['inplace']:
             ctx.tag('read-before-inplace')
     res = getattr(operations, op)(obj, *args, **kw)
@@ -172,5 +175,22 @@ def check(case, ctx):
         exact = (chosen or maps[0])(S0.point(first))
         ctx.near(pts[0], exact, tol, 'single/evalpts-stale-after-inplace-edit', 'evalpts[0] read after %s(inplace=True) is not the '
                  'mapped start point (stale sampled points)' % op, what='aggregate')
+    # ---- without the in-place option the input's derived views are untouched too (read - transform copy - read both) -----------------
+    if not case['inplace'] and input_views is not None:
+        if not case['container']:
+            # the returned copy must report ITS OWN unweighted points, and a later in-place edit of it must not leak back
+            got_c = [list(p) for p in res.ctrlpts]
+            exp_c = [[float(c) for c in (chosen or maps[0])([F(x) for x in p])] for p in input_views['ctrlpts']] if op != 'rotate' or chosen \
+                else None
+            if exp_c is not None:
+                ctx.check(all(abs(a - b_) <= tol for p, q_ in zip(got_c, exp_c) for a, b_ in zip(p, q_)), 'copy/result-views-stale',
+                          '%s(inplace=False): ctrlpts of the result are not the mapped control points of the input' % op, what='inplace-semantics')
+            res.ctrlpts = [[c + 1.0 for c in p] for p in res.ctrlpts]
+        for nm, old in input_views.items():
+            now = [list(p) for p in getattr(obj, nm)] if nm != 'weights' else list(getattr(obj, nm))
+            same = len(now) == len(old) and all((abs(a - b_) <= 1e-12 * max(1.0, abs(b_))) if not isinstance(a, list) else
+                                                all(abs(x - y) <= 1e-12 * max(1.0, abs(y)) for x, y in zip(a, b_)) for a, b_ in zip(now, old))
+            ctx.check(same, 'copy/input-views-changed', '%s(inplace=False): %s of the INPUT changed after transforming / reading the copy'
+                      % (op, nm), what='inplace-semantics')
     interior = any(len(kv) > 2 * (p + 1) for sd in sds for kv, p in zip(sd['kvs'], sd['degrees']))
     ctx.nontriv(nontrivial_map and (interior or any(sd['rational'] for sd in sds)))
